@@ -19,6 +19,7 @@ EXPLANATION = ("P1 the PEG extracted from the nom combinator calls of src/filter
 TRUSTED = ['nom combinator semantics', 'RFC 4515 grammar transcribed below', 'rules/triage/C08.tsv']
 UNDECIDED = ['round trip through a canonical printer taken whole']
 ASSUMPTIONS = []
+SHARED = [('C07', ('B1.', 'B2m.', 'B4.encoder', 'B5.'), 'P7.ber-writer')]
 TRIAGE = os.path.join(engine.VERIF, 'rules', 'triage', 'C08.tsv')
 FP = 'ldap3::filter::'
 
